@@ -2,7 +2,7 @@
    Only statements closed by [exact] and their Print Assumptions.  Exact rational model
    (FormatM.v); a "stored coordinate" is a canonical one (C08).  MGRS and the pyproj round
    trips are third-party numerics: no theorem (observed by the check on a fixed corpus). *)
-From Coq Require Import QArith Qabs Lqa String.
+From Coq Require Import QArith Qabs Lqa String Ascii.
 From GV Require Import Prelude CoordM CoordP FormatM FormatP FormatP2.
 Open Scope Q_scope.
 
@@ -28,6 +28,14 @@ Theorem C19_dms_axis_roundtrip : forall dd,
 Proof. exact dms_axis_roundtrip. Qed.
 Print Assumptions C19_dms_axis_roundtrip.
 
+(* the same bound on the seconds count x the float code actually splits (the float product
+   abs(dd)*3600; the check verifies per case that it is within half an ulp of the exact one) *)
+Theorem C19_dms_of_x_roundtrip : forall x, 0 <= x ->
+  - dms_eps <= dms_num (dms_of_x x true) - x / 3600 /\
+  dms_num (dms_of_x x true) - x / 3600 <= dms_eps.
+Proof. exact dms_of_x_roundtrip. Qed.
+Print Assumptions C19_dms_of_x_roundtrip.
+
 Theorem C19_dms_eps_value : dms_eps == ((1 # 200000) + (1 # 100000000000000000)) / 3600.
 Proof. exact dms_eps_is. Qed.
 
@@ -46,6 +54,13 @@ Theorem C19_qdms_lengths : forall c rev, canonical c ->
   else String.length a = 10%nat /\ String.length b = 9%nat.
 Proof. exact qdms_lengths. Qed.
 Print Assumptions C19_qdms_lengths.
+
+(* hemisphere letters match the sign: E/N exactly when the value is >= 0 *)
+Theorem C19_qdms_letters : forall c,
+  String.get 0 (fst (to_qdms c false)) = Some (if Qle_bool 0 (clon c) then "E"%char else "W"%char) /\
+  String.get 0 (snd (to_qdms c false)) = Some (if Qle_bool 0 (clat c) then "N"%char else "S"%char).
+Proof. exact qdms_letters. Qed.
+Print Assumptions C19_qdms_letters.
 
 (* from_qdms reads back exactly the numbers to_qdms wrote (digit strings parse to the integers
    printed) and the result is within qdms_eps per axis:
